@@ -5,6 +5,9 @@ package main
 //           with call/return stamps and results, for the linearizability checker of the Lean driver;
 //  L lines: every lookup closes its channel exactly once (also on its error paths) and leaves the
 //           options it was handed as they were;
+//  S lines: a caller half way through a look-up uses the store while another goroutine does too;
+//  N lines: the consumer of a look-up reads the same graph between results, with and without a writer
+//           arriving (model: Model/Chan.lean);
 //  R line : a randomized stress run (meant for the -race build) ending without panic or deadlock.
 
 import (
@@ -351,10 +354,109 @@ func stress(r *rng, seconds float64, goroutines int) string {
 	return fmt.Sprintf("ok ops=%d", ops)
 }
 
+// slowConsumer: a caller that is half way through reading a look-up's results (the look-up goroutine is
+// blocked sending, holding the graph's read lock) must still be able to use the STORE while another
+// goroutine runs `second` — the store's operations hold only the store's own lock, so no cycle can form.
+// The consumer never touches the graph it is reading from. "ok" or "deadlock".
+func slowConsumer(second, consumer string) string {
+	ctx := context.Background()
+	st := memory.NewStore()
+	uni := concUniverse()
+	gr, _ := st.NewGraph(ctx, "?g")
+	st.NewGraph(ctx, "?h")
+	gr.AddTriples(ctx, uni)
+	ch := make(chan *triple.Triple)
+	go gr.Triples(ctx, storage.DefaultLookup, ch)
+	<-ch // the producer is now blocked on its second send
+	secondDone := make(chan struct{})
+	go func() {
+		defer close(secondDone)
+		switch second {
+		case "del-same":
+			st.DeleteGraph(ctx, "?g")
+		case "del-other":
+			st.DeleteGraph(ctx, "?h")
+		case "new":
+			st.NewGraph(ctx, "?i")
+		case "names":
+			c := make(chan string, 8)
+			st.GraphNames(ctx, c)
+		}
+	}()
+	time.Sleep(2 * time.Millisecond) // let `second` reach whatever it waits for
+	consDone := make(chan struct{})
+	go func() {
+		defer close(consDone)
+		switch consumer {
+		case "get":
+			st.Graph(ctx, "?h")
+		case "names":
+			c := make(chan string, 8)
+			st.GraphNames(ctx, c)
+		case "new":
+			st.NewGraph(ctx, "?j")
+		case "del":
+			st.DeleteGraph(ctx, "?k")
+		}
+		for range ch {
+		}
+	}()
+	for _, c := range []chan struct{}{consDone, secondDone} {
+		select {
+		case <-c:
+		case <-time.After(3 * time.Second):
+			return "deadlock"
+		}
+	}
+	return "ok"
+}
+
+// nestedConsumer: the consumer of a look-up of n results does b Exist calls on the SAME graph for each result
+// it receives; with `writer`, a RemoveTriples arrives after the first result. "ok" or "deadlock".
+func nestedConsumer(n, b int, writer bool) string {
+	ctx := context.Background()
+	st := memory.NewStore()
+	uni := concUniverse()[:n]
+	gr, _ := st.NewGraph(ctx, "?g")
+	gr.AddTriples(ctx, uni)
+	ch := make(chan *triple.Triple)
+	go gr.Triples(ctx, storage.DefaultLookup, ch)
+	done := make(chan struct{})
+	wdone := make(chan struct{})
+	go func() {
+		defer close(done)
+		first := true
+		for x := range ch {
+			if first {
+				first = false
+				go func() {
+					defer close(wdone)
+					if writer {
+						gr.RemoveTriples(ctx, uni[:1])
+					}
+				}()
+				time.Sleep(2 * time.Millisecond) // the writer has reached its Lock
+			}
+			for i := 0; i < b; i++ {
+				gr.Exist(ctx, x)
+			}
+		}
+	}()
+	for _, c := range []chan struct{}{done, wdone} {
+		select {
+		case <-c:
+		case <-time.After(2 * time.Second):
+			return "deadlock"
+		}
+	}
+	return "ok"
+}
+
 func cmdConc(args []string) error {
 	fs := flag.NewFlagSet("conc", flag.ContinueOnError)
 	n := fs.Int("n", 1000, "recorded histories")
 	secs := fs.Float64("stress", 2, "seconds of randomized stress")
+	scen := fs.Bool("scen", true, "consumer scenarios (N and S lines)")
 	opsPath := fs.String("ops", "", "")
 	implPath := fs.String("impl", "", "")
 	if err := fs.Parse(args); err != nil {
@@ -404,6 +506,24 @@ func cmdConc(args []string) error {
 			t := uni[(nl)%len(uni)]
 			g.emit(fmt.Sprintf("L %s lo=%d", m, li), closesOnce(gr, m, t.Subject(), t.Predicate(), t.Object(), lo))
 			nl++
+		}
+	}
+	for _, second := range []string{"del-same", "del-other", "new", "names"} {
+		for _, cons := range []string{"get", "names", "new", "del"} {
+			if !*scen {
+				break
+			}
+			g.emit("S "+second+" "+cons, slowConsumer(second, cons))
+		}
+	}
+	for _, n := range []int{1, 2, 6} {
+		if !*scen {
+			break
+		}
+		for _, b := range []int{0, 1, 2} {
+			for w := 0; w < 2; w++ {
+				g.emit(fmt.Sprintf("N %d %d %d", n, b, w), nestedConsumer(n, b, w == 1))
+			}
 		}
 	}
 	g.emit(fmt.Sprintf("R stress seconds=%v goroutines=12", *secs), strings.Fields(stress(r, *secs, 12) + " x")[0])
